@@ -63,9 +63,14 @@ def apply_edit(cs, name):
             if isinstance(rules, dict):
                 rules["verif-deep"] = "1"
                 break
-        for n in caps[0].nodes:
-            if n.type_ == CaptionNode.STYLE and isinstance(n.content, dict):
-                n.content["verif-deep"] = True
+        done = False
+        for c in caps:
+            for n in c.nodes:
+                if n.type_ == CaptionNode.STYLE and isinstance(n.content, dict):
+                    n.content["verif-deep"] = True
+                    done = True
+                    break
+            if done:
                 break
     else:
         raise ValueError(name)
